@@ -10,6 +10,7 @@ use crate::{
     codec::*,
     core::{
         base_types::NonZero,
+        error::{CodecError, InvalidPacketHeader},
         properties::ReceiveMaximum,
         utils::{ByteLen, Encode, PacketID, SizedPacket},
     },
@@ -355,6 +356,10 @@ where
                     sender.send(Ok(rx_packet)).ok(); // The caller may have dropped its future meanwhile.
                 }
             }
+            // CONNACK and AUTH are only expected as the response to CONNECT/AUTH.
+            RxPacket::Connack(_) | RxPacket::Auth(_) => {
+                return Err(CodecError::from(InvalidPacketHeader).into());
+            }
             RxPacket::Pubrel(pubrel) => {
                 let packet_id = pubrel.packet_identifier;
                 session.unreleased_qos2.retain(|id| *id != packet_id);
@@ -515,9 +520,9 @@ where
                 Ok(Left(ConnectRsp::try_from(connack)?))
             }
             RxPacket::Auth(auth) => Ok(Right(AuthRsp::try_from(auth)?)),
-            _ => {
-                unreachable!("Unexpected packet type.");
-            }
+            RxPacket::Disconnect(disconnect) => Err(disconnect.into()),
+            // Any other packet is a protocol violation at this point.
+            _ => Err(CodecError::from(InvalidPacketHeader).into()),
         }
     }
 
@@ -563,9 +568,9 @@ where
                 Ok(Left(ConnectRsp::try_from(connack)?))
             }
             RxPacket::Auth(auth) => Ok(Right(AuthRsp::try_from(auth)?)),
-            _ => {
-                unreachable!("Unexpected packet type.");
-            }
+            RxPacket::Disconnect(disconnect) => Err(disconnect.into()),
+            // Any other packet is a protocol violation at this point.
+            _ => Err(CodecError::from(InvalidPacketHeader).into()),
         }
     }
 
